@@ -20,6 +20,8 @@ pub enum DecErr {
     InvalidSliceLength,
     /// stream deserialisers: any arkworks SerializationError
     Other,
+    /// the entry point panicked (other than a documented `unimplemented!`)
+    Panicked,
 }
 
 impl From<ark::EncodingError> for DecErr {
